@@ -25,7 +25,7 @@ ASSUMPTIONS = [
     'L2: the API-server model and virtual time of kopfsim',
 ]
 BUDGET = {'quick': 6000, 'thorough': None}   # L1 combinations per shard (None = the whole slice)
-L2_BUDGET = {'quick': 12, 'thorough': 400}
+L2_BUDGET = {'quick': 40, 'thorough': 600}
 
 PRESENT, ABSENT = '@present', '@absent'
 LABEL_CRITERIA = [None, 'a', PRESENT, ABSENT, '@cb:isa', '@cb:isnone']
@@ -293,8 +293,27 @@ def l2_scenarios(draw):
     actions = [dict(a, v=a['v'] % 3) if a['a'] in ('create', 'edit_spec') else a for a in actions]
     if draw(st.booleans()):
         actions.insert(draw(st.integers(0, len(actions))), {'a': 'restart', 'how': 'stop', 'down': 1.0, 'dt': 0.0})
+    if draw(st.integers(0, 2)) == 0:
+        # Aim at the cause-kind criterion of resume handlers: a pre-existing object that starts to satisfy the
+        # resume handler's filter only later, next to other (matching) handlers.
+        handlers = [{'kind': 'resume', 'id': 'r0', 'script': [], 'duration': 0,
+                     'labels': {'on': draw(st.sampled_from(['yes', PRESENT]))}},
+                    {'kind': draw(st.sampled_from(['update', 'create', 'update'])), 'id': 'x1', 'script': [], 'duration': 0}]
+        if draw(st.booleans()):
+            handlers.append({'kind': 'event', 'id': 'e2', 'script': [], 'duration': 0})
+        actions = [{'a': 'advance', 'dt': draw(dts)},
+                   {'a': draw(st.sampled_from(['label', 'edit_spec', 'annotate'])), 'obj': 0, 'v': draw(st.sampled_from(['yes', 'no'])) , 'dt': draw(dts)},
+                   {'a': 'label', 'obj': 0, 'v': 'yes', 'dt': draw(dts)}] + actions[:3]
+        actions = [dict(a, v=(a['v'] if a['a'] == 'label' else 1)) for a in actions]
+        pre = [{'a': 'create', 'obj': 0, 'v': 1, 'dt': 0.0}]
+        if draw(st.booleans()):
+            pre.append({'a': 'label', 'obj': 0, 'v': 'no', 'dt': 0.0})
+        return {'mode': 'L2', 'seed': draw(st.integers(0, 9999)), 'spec': {'handlers': handlers, 'lifecycle': 'all_at_once'},
+                'cluster': {}, 'pre': pre, 'actions': actions}
+    pre = draw(st.lists(cl.env_actions(st.just(0.0), n_objects=2, with_delete=False, with_labels=True), max_size=3))
+    pre = [dict(a, v=a['v'] % 3) if a['a'] in ('create', 'edit_spec') else a for a in pre]
     return {'mode': 'L2', 'seed': draw(st.integers(0, 9999)), 'spec': {'handlers': handlers, 'lifecycle': 'all_at_once'},
-            'cluster': {}, 'actions': actions}
+            'cluster': {}, 'pre': pre, 'actions': actions}
 
 
 def l2_expected(h, view_state):
@@ -338,6 +357,41 @@ def run_l2(sc, res):
                         res.known.append({'id': FINDING_F, 'msg': f'{c["hid"]} {h} invoked on {c["name"]} whose current spec is {spec} (last-handled {stored})'})
                         continue
                     res.fail('C15/L2-field-criterion', f'{c["hid"]} {h} invoked on {c["name"]} rv={c["rv"]} whose spec is {spec}')
+        # (1b) cause kind of resume handlers: they belong to the first sight of a pre-existing object. If the listed
+        # body did not satisfy the handler's criteria, a later invocation is legitimate only as part of a handling
+        # cycle that was still open since the first sight (some progress record on the object in between).
+        versions0 = {}
+        for v in sim.cluster.history:
+            if v['rkey'] == KEX:
+                versions0.setdefault(v['uid'], []).append(v)
+        listed = {}
+        for r in sim.cluster.requests:
+            for uid, rv in r.get('listed') or []:
+                listed.setdefault((r['client'], uid), int(rv))
+        for c in sim.trace:
+            if c.get('k') != 'call' or c['hid'] not in handlers or handlers[c['hid']]['kind'] != 'resume':
+                continue
+            h = handlers[c['hid']]
+            lrv = listed.get((c['inc'], c['uid']))
+            if lrv is None:
+                res.fail('C15/L2-resume-on-unlisted-object', f'{c["hid"]} invoked by {c["inc"]} on {c["name"]} which it never listed (not a first sight)')
+                continue
+            lbody = next((v['body'] for v in versions0.get(c['uid'], []) if v['rv'] == lrv), None)
+            if lbody is None:
+                continue
+            spec0 = lbody.get('spec') or {}
+            matched_at_first_sight = l2_expected(h, {'labels': lbody['metadata'].get('labels') or {}}) and \
+                (not h.get('field') or crit_ok(h.get('value', PRESENT), 'f' in spec0, spec0.get('f')))
+            if not matched_at_first_sight:
+                between = [v for v in versions0[c['uid']] if lrv <= v['rv'] <= int(c['rv'])]
+                open_cycle = any(any(k.startswith('kopf.zalando.org/') and not k.endswith('last-handled-configuration')
+                                     and 'touch-dummy' not in k for k in (v['body']['metadata'].get('annotations') or {}))
+                                 for v in between)
+                if not open_cycle:
+                    res.fail('C15/L2-resume-after-first-sight',
+                             f'{c["hid"]} {h} invoked by {c["inc"]} on {c["name"]} rv={c["rv"]} (reason {c["reason"]}) although the body it listed '
+                             f'at start (rv={lrv}, labels={lbody["metadata"].get("labels")}, spec={spec0}) did not satisfy its criteria and no cycle was open since')
+                res.label('L2-resume-filter-false-at-first-sight')
         # (2) objects matched by no handler at any of their versions are left untouched
         versions = {}
         for v in sim.cluster.history:
